@@ -19,6 +19,24 @@ type exampleBuilder struct {
 	// Infinite recursion can't happen here 'cause we check it before building
 	// example, but optional recursion can be there.
 	processedTypes map[string]int
+
+	// depth the number of objects and arrays the builder is inside of.
+	depth int
+}
+
+// maxExampleDepth the deepest nesting of objects and arrays an example may have.
+// A single text can't be nested deeper (the scanner refuses it), but the types
+// which refer to each other put their trees on top of each other in the example,
+// and the builder is recursive.
+const maxExampleDepth = 10000
+
+// enter counts one more level of nesting.
+func (b *exampleBuilder) enter() error {
+	if b.depth >= maxExampleDepth {
+		return errs.ErrNestingTooDeep.F(maxExampleDepth)
+	}
+	b.depth++
+	return nil
 }
 
 func newExampleBuilder(types map[string]ischema.Type) *exampleBuilder {
@@ -50,6 +68,11 @@ func (b *exampleBuilder) Build(node ischema.Node) ([]byte, error) {
 func (b *exampleBuilder) buildExampleForObjectNode(node *ischema.ObjectNode) ([]byte, error) {
 	// An object with the "or" rule is an empty object (the compiler refuses
 	// anything else) which stands for itself in the example.
+
+	if err := b.enter(); err != nil {
+		return nil, err
+	}
+	defer func() { b.depth-- }()
 
 	buf := exampleBufferPool.Get()
 	defer exampleBufferPool.Put(buf)
@@ -104,6 +127,11 @@ func (b *exampleBuilder) buildObjectKey(k ischema.ObjectNodeKey) ([]byte, error)
 func (b *exampleBuilder) buildExampleForArrayNode(node *ischema.ArrayNode) ([]byte, error) {
 	// An array with the "or" rule is an empty array (the compiler refuses
 	// anything else) which stands for itself in the example.
+
+	if err := b.enter(); err != nil {
+		return nil, err
+	}
+	defer func() { b.depth-- }()
 
 	buf := exampleBufferPool.Get()
 	defer exampleBufferPool.Put(buf)
